@@ -33,6 +33,22 @@ add("C09", "pure", "exploration",
     "Trusts the harness reference interpreter (about 120 lines); Go-nil snippets, surplus Sprintf arguments and invalid UTF-8 formats are not generated.",
     "DESIGN.md section 3, C09")
 
+add("C15", "pure", "exploration",
+    "property-based testing (rapid) with a print/parse round trip and a reference parser for rendered text; exhaustive enumeration of all small trees",
+    "Reference trees are generated from the grammar, printed by the harness and parsed back by ParseTypeRef (tree equality and String round trip); ParseRef, Ref and "
+    "PkgImportPathAndExpose must split at the harness-known point; rendering through snippet.ID/PkgExpose is parsed by a harness parser and every qualifier is resolved "
+    "through the tracker. Every tree up to 5 (quick) / 6 (thorough) nodes over 6 labels is enumerated.",
+    "Trusts the harness tree printer and rendered-text parser; paths without /vendor/.",
+    "DESIGN.md section 3, C15")
+
+add("C03", "pipe", "exploration",
+    "property-based testing (rapid): selector/import-table invariants over generated colliding import paths; generated files compiled by the Go toolchain",
+    "Ordered lists of colliding import paths are referenced through every reference kind; the oracle resolves each rendered qualifier through the tracker, "
+    "requires Imports() to equal the referenced foreign set under distinct valid identifiers, own-package references unqualified, and re-rendering to be stable. "
+    "The file-level sub lays such packages out in a temp module, runs Execute and lets go build confirm none missing / none unused.",
+    "Trusts go/token.IsIdentifier for identifier validity and the Go compiler for the file-level confirmation.",
+    "DESIGN.md section 3, C03")
+
 ALL = ["C%02d" % i for i in range(1, 21)]
 
 def main():
